@@ -241,6 +241,7 @@ func runC10(r *mc.Run) {
 	// (2c) well-formed, correctly signed TCB Info of every small shape of the TDX module identity list, against quotes
 	// whose module version / SVN select every position in it
 	c10ModuleIdentityShapes(r)
+	c10LevelComponentShapes(r)
 
 	// (3) arbitrary endpoint behaviour
 	c10Endpoints(r, bases[0])
@@ -689,4 +690,65 @@ func c10ModuleIdentityShapes(r *mc.Run) {
 	})
 	r.SectionDone(mc.Section{Name: "module-identity-shapes", Evaluations: int64(done) * 2, Exhaustive: done == len(jobs),
 		Note: fmt.Sprintf("%d identity lists x module version {1,3} x module SVN 0..7", len(lists))})
+}
+
+// c10LevelComponentShapes: correctly signed TCB info whose first platform TCB level has component lists of unusual
+// lengths (absent, 1, 2, 3, 15, 16, 17, 18, 32; all SVNs zero, PCE SVN zero, so that every earlier conjunct of the
+// level search holds and the odd list is what is looked at), followed or not by the level that matches; quotes with
+// TDX module version 0, 1 and 3 (the comparison skips two components when it is non-zero).
+func c10LevelComponentShapes(r *mc.Run) {
+	lens := []int{0, 1, 2, 3, 15, 16, 17, 18, 32}
+	type job struct {
+		sgx, tdx int
+		ver      byte
+		followed bool
+	}
+	var jobs []job
+	for _, a := range lens {
+		for _, b := range lens {
+			for _, ver := range []byte{0, 1, 3} {
+				jobs = append(jobs, job{a, b, ver, true}, job{a, b, ver, false})
+			}
+		}
+	}
+	done := r.Parallel(len(jobs), func(i int) {
+		j := jobs[i]
+		id := fmt.Sprintf("level-components/sgx=%d,tdx=%d,module-version=%d,matching-level-follows=%v", j.sgx, j.tdx, j.ver, j.followed)
+		if !r.Want(id) {
+			return
+		}
+		w := world.Honest("T")
+		w.Spec.TeeTcbSvn = []byte{4, j.ver, 5, 0, 0, 0, 0, 0, 0, 0, 0, 0, 0, 0, 0, 0}
+		w.Parts = w.Spec.Parts()
+		w.TcbInfo = world.DefaultTcbInfo(w.Plat, w.Parts.Body[0:16])
+		if j.ver != 0 {
+			w.TcbInfo.TdxModuleIdentities = []world.ModuleIdentity{{ID: fmt.Sprintf("TDX_%02d", j.ver), Mrsigner: strings.Repeat("00", 48), Attributes: "0000000000000000", AttributesMask: "FFFFFFFFFFFFFFFF",
+				TcbLevels: []world.Level{{Tcb: world.Tcb{Isvsvn: world.IntP(2)}, TcbDate: "2029-01-01T00:00:00Z", TcbStatus: "UpToDate"}}}}
+		}
+		odd := world.Level{Tcb: world.Tcb{Pcesvn: world.IntP(0)}, TcbDate: "2028-06-01T00:00:00Z", TcbStatus: "OutOfDate"}
+		if j.sgx > 0 {
+			odd.Tcb.Sgx = world.CompsOf(make([]byte, j.sgx))
+		}
+		if j.tdx > 0 {
+			odd.Tcb.Tdx = world.CompsOf(make([]byte, j.tdx))
+		}
+		if j.followed {
+			w.TcbInfo.TcbLevels = append([]world.Level{odd}, w.TcbInfo.TcbLevels...)
+		} else {
+			w.TcbInfo.TcbLevels = []world.Level{odd}
+		}
+		w.Finish()
+		raw := w.Raw()
+		o := w.Options(world.L1)
+		c10Call(r, id, "verify.RawTdxQuote/L1", nil, func() error { return verify.RawTdxQuote(raw, o) })
+		if q, err := safeToProto(raw); err == nil {
+			o2 := w.Options(world.L1)
+			c10Call(r, id, "verify.SupportedTcbLevelsFromCollateral", nil, func() error {
+				_, _, e := verify.SupportedTcbLevelsFromCollateral(q, o2)
+				return e
+			})
+		}
+	})
+	r.SectionDone(mc.Section{Name: "level-component-shapes", Evaluations: int64(done) * 2, Exhaustive: done == len(jobs),
+		Note: fmt.Sprintf("%d x %d component list lengths x module version {0,1,3} x matching level follows {yes,no}", len(lens), len(lens))})
 }
